@@ -116,6 +116,49 @@ func shortName(fn *ssa.Function) string {
 }
 
 func (e *Engine) callStatic(fr *Frame, st *State, fn *ssa.Function, args []SV, resT types.Type, pos token.Pos) SV {
+	rv := e.callStatic0(fr, st, fn, args, resT, pos)
+	if fr != nil && fr.top && e.curContract != nil && len(e.curContract.CallAssumes) > 0 {
+		e.callAssumes(fr, st, fn, args, rv, resT, pos)
+	}
+	return rv
+}
+
+// callAssumes: assume_call clauses of the verified function - facts assumed about the
+// results of a callee at its call sites (rely conditions on shared state such as a
+// sync.Map; each is listed as an assumption in the evidence).
+func (e *Engine) callAssumes(fr *Frame, st *State, fn *ssa.Function, args []SV, rv SV, resT types.Type, pos token.Pos) {
+	rn := relName(fn)
+	for _, ca := range e.curContract.CallAssumes {
+		if ca.Text != rn && ca.Text != fn.Name() {
+			continue
+		}
+		env := e.loopEnv(fr, st)
+		sig := fn.Signature
+		i := 0
+		if sig.Recv() != nil {
+			i = 1
+		}
+		for j := 0; j < sig.Params().Len() && i+j < len(args); j++ {
+			env = env.with(fmt.Sprintf("arg%d", j), TV{V: args[i+j], T: sig.Params().At(j).Type()})
+		}
+		r := sig.Results()
+		for j := 0; j < r.Len(); j++ {
+			v := rv
+			if r.Len() > 1 {
+				v = rv.(*TupleSV).E[j]
+			}
+			env = env.with(fmt.Sprintf("result%d", j), TV{V: v, T: r.At(j).Type()})
+		}
+		t, err := e.tryEvalBool(env, ca.Cl.Expr)
+		if err != nil {
+			panic(fmt.Sprintf("contract error: assume_call %s: %v", ca.Text, err))
+		}
+		e.vc.assume(st.pc, t)
+		e.vc.usedExt["assumed at calls of "+ca.Text+" in "+e.curContract.Key+": "+ca.Cl.Text] = true
+	}
+}
+
+func (e *Engine) callStatic0(fr *Frame, st *State, fn *ssa.Function, args []SV, resT types.Type, pos token.Pos) SV {
 	key := funcKey(fn)
 	if fr != nil && fr.top && e.curContract != nil && len(e.curContract.CallAsserts) > 0 {
 		e.callAsserts(fr, st, fn, args, pos)
@@ -184,6 +227,9 @@ func (e *Engine) callAsserts(fr *Frame, st *State, fn *ssa.Function, args []SV, 
 		}
 		ob := e.vc.oblige(fmt.Sprintf("assert_call:%d#", k+1), st.pc, t, fmt.Sprintf("at the call of %s (%s): %s", ca.Text, e.posStr(pos), ca.Cl.Text))
 		ob.Props = ca.Cl.Props
+		if ca.Assume {
+			e.vc.assume(st.pc, t)
+		}
 	}
 }
 
@@ -217,6 +263,9 @@ func (e *Engine) ifaceCallAsserts(fr *Frame, st *State, it types.Type, m *types.
 		}
 		ob := e.vc.oblige(fmt.Sprintf("assert_call:%d#", k+1), st.pc, t, fmt.Sprintf("at the call of %s (%s): %s", ca.Text, e.posStr(pos), ca.Cl.Text))
 		ob.Props = ca.Cl.Props
+		if ca.Assume {
+			e.vc.assume(st.pc, t)
+		}
 	}
 }
 
